@@ -111,7 +111,7 @@ func c14(c *wk.Ctx) {
 		}
 	}()
 	n := 0
-	c.Cases("history", c.Pick(800, 80000), func(i int, rng *rand.Rand) {
+	c.Cases("history", c.Pick(2400, 80000), func(i int, rng *rand.Rand) {
 		if w == nil || n%50 == 0 {
 			if w != nil {
 				w.close()
